@@ -74,7 +74,7 @@ def scan_trusted(text):
         for tok in TRUST_TOKENS:
             if re.search(tok, code):
                 reason = None
-                for k in range(i, max(-1, i - 8), -1):
+                for k in range(i, max(-1, i - 16), -1):
                     m = re.search(r"//\s*TRUSTED:\s*(.*)", lines[k])
                     if m:
                         reason = m.group(1).strip()
